@@ -5,9 +5,11 @@ PID = "C20"
 
 def check(tier, seed):
     q = tier == "quick"
-    return G.generic_check(PID, "fault_enumeration", tier, seed, coq=False,
-        rule='a cache file is written by a real build, then every prefix of it (thorough: every byte; quick: every 5th byte), 24 bit-flipped variants and a garbage file are put in its place and Initialize is run twice in one process under a 30 s watchdog; the result must equal the book built from the source (bit-flipped but still decodable caches are outside the property and only required to terminate); cache round trip; a case = one damaged cache state',
-        streams=[dict(name="cache_faults", kind="monitor", shards=lambda t: 1 if t == "quick" else 4,
+    return G.generic_check(PID, "proof", tier, seed, coq=True,
+        rule='obligations: theorems of coq/properties/C20.v over CacheModel.v (every cache state, lock released on every path) + source-site recogniser; correspondence: Initialize outcomes for missing / undecodable / complete caches x useCache x recreateCache checked by cache_case_ok inside Coq; fault enumeration: a cache file is written by a real build, then every prefix of it (thorough: every byte; quick: every 5th byte), 24 bit-flipped variants and a garbage file are put in its place and Initialize is run twice in one process under a 30 s watchdog; the result must equal the book built from the source (bit-flipped but still decodable caches are outside the property and only required to terminate); cache round trip; a case = one damaged cache state',
+        streams=[dict(name="cache_model_vs_engine", kind="coqcases", shards=lambda t: 1,
+                      args=lambda t, s, sh, path: ["c19-cases", 1, s * 1000 + 700 + sh, path], coq_timeout=3000, ok_marker="MC = []"),
+                 dict(name="cache_faults", kind="monitor", shards=lambda t: 1 if t == "quick" else 4,
                       args=lambda t, s, sh, path: ["c20-monitor", 1 if t == "quick" else 3, s * 1000 + sh, 5 if t == "quick" else 1], timeout=3000)])
 
 
